@@ -15,9 +15,9 @@ type fieldWrite struct {
 	fi     *FuncInfo
 	field  string
 	stmt   ast.Node
-	rmw    bool   // the stored value depends on the previous value of the same field
-	memo   bool   // guarded by a zero-test of the same field
-	how    string // description
+	rmw    bool      // the stored value depends on the previous value of the same field
+	memo   bool      // guarded by a zero-test of the same field
+	how    string    // description
 	gStart token.Pos // memo-guarded region (the branch containing the write)
 	gEnd   token.Pos
 }
@@ -386,7 +386,7 @@ var ruleH2 = &Rule{
 var ruleH3 = &Rule{
 	ID:    "H3",
 	Floor: 0,
-	Doc: "no map-order dependence in generated SQL: in the query translator packages a `range` over a map whose body appends to a slice / builds a string must be followed by a sort of the result (or iterate sorted keys); otherwise the same query can render different SQL text on each translation",
+	Doc:   "no map-order dependence in generated SQL: in the query translator packages a `range` over a map whose body appends to a slice / builds a string must be followed by a sort of the result (or iterate sorted keys); otherwise the same query can render different SQL text on each translation",
 	Run: func(c *Ctx) []Obl {
 		var obls []Obl
 		for _, fi := range c.Funcs(c.PkgsUnder(transpilerScopes...)) {
